@@ -1111,6 +1111,15 @@ def std_summary(tb, path, upath, fr, args):
             if a0[2] == C(0):
                 return ("asptr", a0[1])
             return ("ptrop", "add", ("asptr", a0[1]), a0[2], es if es is not None else ("sizeof", g[0] if g else "?"))
+        if a0[0] == "call" and isinstance(a0[1], str) and a0[1].startswith("core::slice::index::<impl core::ops::index::Index<core::ops::range::Range") and \
+                a0[1].endswith("::index") and len(a0[2]) == 2 and a0[2][1][0] == "aggr" and a0[2][1][1][0] == "adt" and \
+                a0[2][1][1][1] in ("core::ops::range::RangeFrom", "core::ops::range::Range") and a0[2][1][2]:
+            # `&s[lo..]` / `&s[lo..hi]` (bounds-checked: a PANIC site of its own) starts `lo` elements into s
+            es = F.size_of(g[0]) if g else None
+            lo = a0[2][1][2][0]
+            if lo == C(0):
+                return ("asptr", a0[2][0])
+            return ("ptrop", "add", ("asptr", a0[2][0]), lo, es if es is not None else ("sizeof", g[0] if g else "?"))
         return ("asptr", a0)
     if path == "core::slice::<impl [T]>::is_empty":
         return ("bin", "Eq", ("len", args[0]), C(0), "usize")
